@@ -128,9 +128,9 @@ def gen_shapes():
 
 
 P_TARGETS = ["sliceS", "sliceInt", "sliceIface", "sliceIfaceVal", "sliceSVal", "arrS", "arrSVal", "mapStrInt", "nilMap", "ptrNilMap",
-             "mapIntS", "zoo", "zooL", "nested"]
+             "mapIntS", "zoo", "zooL", "nested", "nilFunc"]
 P_OPS = ["get", "getf", "set", "setf", "del", "def", "push", "pop", "shift", "unshift", "splice", "sort", "sortcmp", "sortshrink", "sortgrow",
-         "reverse", "fill", "copyWithin", "len", "forin", "json", "spread", "keys", "freeze", "pe", "proto", "sym", "neg", "goappend", "goshrink"]
+         "reverse", "fill", "copyWithin", "len", "forin", "json", "spread", "keys", "freeze", "pe", "proto", "sym", "neg", "goappend", "goshrink", "call"]
 
 
 def gen_P(rng):
@@ -282,6 +282,8 @@ def classify_P(line, res):
     target = line.split()[1]
     if "nil map" in res:
         return "nil-gomap-assignment"
+    if "call of nil function" in res:
+        return "nil-gofunc-call"
     if "array index out of range" in res and target.startswith("arr"):
         return "goarray-store-out-of-range"
     if "index out of range" in res and any(o in ("sortshrink",) for o in ops):
@@ -330,7 +332,9 @@ def main(ctx):
     quick = ctx.tier == "quick"
     rng = ctx.rng
     ctx.regen()
-    ok, errs = ctx.lake_build(["GojaModel.C13.Props", "GojaModel.C13.Tie", "model_c13"])
+    ctx.lake_build(["GojaModel.C13.Props", "GojaModel.C13.Tie"])
+    # the driver does not depend on Props/Tie: a broken theorem or tie must not switch the correspondence off
+    ok, errs = ctx.lake_build(["model_c13"])
     ctx.audit("GojaModel.C13.Props", expect_min=17)
     if not quick:
         ctx.leanchecker("GojaModel.C13.Props")
@@ -361,7 +365,7 @@ def main(ctx):
             if fn.endswith(".txt"):
                 corpus += [l.strip() for l in open(os.path.join(cdir, fn)) if l.strip() and not l.startswith("#")]
     nW = 1000 if quick else 40000
-    nP = 600 if quick else 30000
+    nP = 600 if quick else 40000
     nT = 300 if quick else 12000
     W = [l for l in corpus if l.startswith("W ")] + [gen_W(rng) for _ in range(nW)]
     NF = [l for l in corpus if l[:2] in ("N ", "F ", "G ")] + gen_numeric(rng, 6 if quick else 60)
@@ -430,6 +434,10 @@ def main(ctx):
     for i in groups["N"]:
         _, k, v = both[i].split(); v = int(v)
         ctx.nontriv(both[i])
+        m = re.match(r"(?:i64|f64 intval) (-?\d+) to=(-?\d+)$", hres[i])
+        if not (-SAFE <= v <= SAFE) and (m is None or abs(int(m.group(1)) - v) > abs(v) >> 52):
+            # beyond ±2^53 the documented result is the nearest float64: anything further away is a wrong number
+            report("numeric-roundtrip-big:%s" % k, "ToValue/Export of %s(%d) gives %s (not the nearest double)" % (k, v, hres[i]), {"kind": "input", "lines": [both[i]], "observed": [hres[i]]})
         if -SAFE <= v <= SAFE and hres[i] != "i64 %d to=%d" % (v, v):
             report("numeric-roundtrip:%s" % k, "ToValue/Export/ExportTo of %s(%d) gives %s" % (k, v, hres[i]), {"kind": "input", "lines": [both[i]], "observed": [hres[i]]})
     for gname in ("F", "G"):
@@ -464,6 +472,9 @@ def main(ctx):
     ctx.stats["T_kinds"] = dict(sorted(tkinds.items(), key=lambda kv: -kv[1])[:40])
     ctx.obligation("oracle:random-reflect-types-roundtrip", "correspondence", not tbad, "%d cases; %s" % (len(T), ("first failure: %s -> %s" % (T[tbad[0]], tres[tbad[0]][:400])) if tbad else "all ok"))
     for i in tbad[:3]:
+        if "call of nil function" in tres[i]:
+            report("nil-gofunc-call", "calling a wrapped nil Go func panics the host: %s" % tres[i][:300], {"kind": "input", "lines": [T[i]], "observed": [tres[i]]})
+            continue
         report("reflect-type-roundtrip:" + re.sub(r"[^A-Za-z]+", "-", tres[i].split(" type=")[0])[:50], "random Go type round trip: %s" % tres[i][:300],
                {"kind": "input", "lines": [T[i]], "observed": [tres[i]]})
 
